@@ -62,9 +62,9 @@ CLAIMED = {
         note="Trusted: as C09, plus PrettyTable as an oracle (Section variable) and newline handling of open(..., 'w').",
         ref='DESIGN.md section 4 C10'),
     "C14": dict(
-        technique='Coq proof over an executable model of the card section tree + model/implementation correspondence on random operation sequences',
-        text='coq/props/C14.v (18 theorems): what is handed to PrettyTable (header = column names, one cell per entry, LF -> <br />, no LF left); metrics in first-seen order with latest value after any call sequence; placement at the given path with the last path part as title for every builder (D16 repaired); default alt text = own title (D17 repaired); one call with several items = one-by-one. Correspondence-only: PrettyTable layout and get_params (oracles), dict vs DataFrame abstraction, batch vs one-by-one on the implementation.',
-        note='Trusted: as C09; PrettyTable/get_params oracles. Not covered: add_model_plot, add_permutation_importances, add_fairlearn_metric_frame.',
+        technique='Coq proof over an executable model of the card section tree and its content builders + model/implementation correspondence on random operation sequences',
+        text='coq/props/C14.v (31 theorems): what is handed to PrettyTable (header = column names, one cell per entry, LF -> <br />, no LF left); metrics in first-seen order with latest value after any call sequence; placement at the given path with the last path part as title for every builder incl. add_model_plot (D16 repaired); default alt text = own title (D17 repaired); one call with several items = one-by-one; headings = keys for every history without a direct .title assignment (refuted with one); add_model_plot: plain visible unfolded section, subsections kept, also after any history, content = description + blank line + processed HTML (None and "" falsy), where the model of re.sub(r"\\n\\s+", "", .) for EVERY string leaves no LF followed by whitespace, only drops whitespace (subsequence), is the identity iff no such pair exists and equals the leftmost/greedy formulation; str.count/str.replace leftmost and non-overlapping; the style attribute is added iff the class name is counted exactly once. Correspondence-only: PrettyTable layout, get_params and estimator_html_repr (oracles: generated adversarial HTML texts and the real sklearn HTML captured from the single call), the \\s set of re = is_space over all code points, dict vs DataFrame incl. typed numpy columns, batch vs one-by-one on the implementation.',
+        note='Trusted: as C09; PrettyTable / get_params / estimator_html_repr oracles. Open: D33 (pandas iteration changes float32/float16/datetime64/None cells). Not covered: add_permutation_importances, add_fairlearn_metric_frame.',
         ref='DESIGN.md section 4 C14'),
     "C16": dict(
         technique='Coq proof over an fs-operation model + audit-hook correspondence + crash injection',
